@@ -7,6 +7,7 @@ import (
 	"errors"
 	"fmt"
 	"os"
+	"path/filepath"
 	"sort"
 	"strings"
 	"time"
@@ -542,6 +543,31 @@ func runC18(w *World, tier string) (bool, interface{}) {
 				if injected >= budget || !w.Tape.Bool(1, 3, "inject?") {
 					return
 				}
+				if w.Tape.Bool(1, 5, "badReset") {
+					// a state reset whose target cannot be opened as a database (its parent is a
+					// regular file / it is the database the node is running on): the request is
+					// refused and the node goes on working on its old state
+					nd := w.Nodes[i]
+					target := []string{filepath.Join(nd.StateDir, "CURRENT", "sub"), nd.StateDir, "/proc/version/x"}[w.Tape.Choose(3, "badTarget")]
+					rb, _ := json.Marshal(map[string]interface{}{"new_state_dbdsn": target, "use_offset": true, "messages": []string{}})
+					before := nd.Snapshot()
+					rep := w.CallAPI(nd, "malformed", "POST", "/resetState", rb)
+					injected++
+					judged++
+					kinds = append(kinds, "reset-to-unusable-target@api")
+					w.Stats.Fault("malformed-reset-to-unusable-target")
+					if !rep.OK() && !rep.Crashed {
+						if after := nd.Snapshot(); after == nil {
+							w.Fail("C18", "refused-reset-left-node-without-state", fmt.Sprintf("%s refused the reset (%.100s) but can no longer read its state database", nd.Name, rep.ErrMsg))
+						} else if dd := snapDiff(before, after); len(dd) > 0 {
+							w.Fail("C18", "rejected-api-request-changed-state/reset/"+strings.Join(dd, ","), fmt.Sprintf("%s refused the reset but its state changed in %v", nd.Name, dd))
+						}
+						if off := w.CallAPI(nd, "getOffset", "GET", "/getOffset", nil); !off.OK() && !w.Failed() {
+							w.Fail("C18", "refused-reset-left-node-unusable", fmt.Sprintf("%s refused the reset (%.100s); afterwards even /getOffset fails: %.100s", nd.Name, rep.ErrMsg, off.ErrMsg))
+						}
+					}
+					return
+				}
 				kind := c18Kinds[w.Tape.Choose(len(c18Kinds), "kind")]
 				d, ok := mutateJSON(w, body, kind)
 				if !ok {
@@ -593,6 +619,11 @@ func runC18(w *World, tier string) (bool, interface{}) {
 	for _, nd := range w.Nodes {
 		if len(nd.Panics) > 0 && !w.Failed() {
 			w.Fail("C18", "node-panic", strings.Join(nd.Panics, "; "))
+		}
+	}
+	for _, nd := range w.Nodes {
+		if nd.PollerEnded > 0 && !w.Failed() {
+			w.Fail("C18", "polling-loop-ended", fmt.Sprintf("%s: Poll() returned by itself %d time(s): the daemon process ends (injected: %v)", nd.Name, nd.PollerEnded, kinds))
 		}
 	}
 	for _, a := range w.Airs {
